@@ -300,6 +300,16 @@ func e18DiffCase(pkg string, seed uint64, n int, foreign string) Case {
 				}
 				tl, e1 := ty.nodes[lbl].list()
 				ul, e2 := un.nodes[lbl].list()
+				hasNil := false
+				for _, o := range tl {
+					if o == nil {
+						hasNil = true
+					}
+				}
+				if hasNil {
+					r.V("C20", "typed-list-nil-entry", "%s %s: node %s: the typed List() returned %d entries of which some are nil (an object of another type was not skipped)", pkg, when, lbl, len(tl))
+					return false
+				}
 				if (e1 == nil) != (e2 == nil) {
 					r.V("C20", "cache-error-differs", "%s %s: node %s List error typed=%v untyped=%v", pkg, when, lbl, e1, e2)
 					ok = false
@@ -526,6 +536,7 @@ type recTransport struct {
 	reqs       []string
 	kind       string
 	apiVersion string
+	watches    int
 }
 
 type blockingBody struct {
@@ -551,6 +562,16 @@ func (t *recTransport) RoundTrip(req *http.Request) (*http.Response, error) {
 	t.mu.Unlock()
 	h := http.Header{"Content-Type": []string{"application/json"}}
 	if q.Get("watch") == "true" {
+		t.mu.Lock()
+		t.watches++
+		first := t.watches == 1
+		t.mu.Unlock()
+		if first {
+			// one event at version 9, then the server closes the stream: the client
+			// must come back with resourceVersion=9 (and nothing else)
+			frame := fmt.Sprintf(`{"type":"ADDED","object":{"kind":"%s","apiVersion":"%s","metadata":{"name":"w","namespace":"default","resourceVersion":"9"}}}`+"\n", t.kind, t.apiVersion)
+			return &http.Response{StatusCode: 200, Header: h, Body: io.NopCloser(bytes.NewBufferString(frame)), Request: req}, nil
+		}
 		return &http.Response{StatusCode: 200, Header: h, Body: blockingBody{req.Context()}, Request: req}, nil
 	}
 	body := fmt.Sprintf(`{"kind":"%sList","apiVersion":"%s","metadata":{"resourceVersion":"7"},"items":[]}`, t.kind, t.apiVersion)
@@ -605,14 +626,14 @@ func e18RestCase(pkg, ns string) Case {
 			return
 		}
 		// wait for the watch request
-		for i := 0; i < 400; i++ {
+		for i := 0; i < 600; i++ { // the re-watch comes after the library's 1 s retry delay
 			tr.mu.Lock()
 			n := len(tr.reqs)
 			tr.mu.Unlock()
-			if n >= 2 {
+			if n >= 3 {
 				break
 			}
-			time.Sleep(5 * time.Millisecond)
+			time.Sleep(10 * time.Millisecond)
 		}
 		tr.mu.Lock()
 		reqs := append([]string(nil), tr.reqs...)
@@ -623,6 +644,7 @@ func e18RestCase(pkg, ns string) Case {
 		}
 		wantList := "GET " + exp.prefix + nsPart + "/" + exp.resource + "?"
 		wantWatch := "GET " + exp.prefix + "/watch" + nsPart + "/" + exp.resource + "?resourceVersion=7&watch=true"
+		wantRewatch := "GET " + exp.prefix + "/watch" + nsPart + "/" + exp.resource + "?resourceVersion=9&watch=true"
 		r.Add("request-checks", 1)
 		if len(reqs) < 2 {
 			r.V("C20", "requests-missing", "%s ns=%q: expected a list and a watch request, saw %v", pkg, ns, reqs)
@@ -632,6 +654,11 @@ func e18RestCase(pkg, ns string) Case {
 			}
 			if reqs[1] != wantWatch {
 				r.V("C20", "watch-request-wrong", "%s ns=%q: watch request is %q, expected %q", pkg, ns, reqs[1], wantWatch)
+			}
+			if len(reqs) < 3 {
+				r.V("C20", "requests-missing", "%s ns=%q: no re-watch within 6 s after the server closed the first stream; saw %v", pkg, ns, reqs)
+			} else if reqs[2] != wantRewatch {
+				r.V("C20", "rewatch-request-wrong", "%s ns=%q: after one event at version 9 and a stream close the re-watch request is %q, expected %q", pkg, ns, reqs[2], wantRewatch)
 			}
 		}
 		cancel()
